@@ -369,3 +369,36 @@ def stale_statistic_uses(an: Anatomy, expr):
                 bad.append(line)
             work.extend(loaded)
     return sorted(set(bad))
+
+
+def used_callables(idx):
+    """Widened scope (thorough tier): every `NonnegMean.<name>` handed over as test / estim / bet anywhere in the repository --
+    library, tests and the code cells of examples/*.ipynb (parsed as JSON + ast, never executed).
+    -> {role: {name: [origins]}}"""
+    import json as _json
+    import re as _re
+
+    out = {"test": {}, "estim": {}, "bet": {}}
+    sources = []
+    repo = idx.repo
+    for p in sorted(repo.rglob("*.py")):
+        if ".git" in p.parts:
+            continue
+        try:
+            sources.append((str(p.relative_to(repo)), p.read_text(errors="replace")))
+        except OSError:
+            pass
+    for p in sorted((repo / "examples").glob("*.ipynb")) if (repo / "examples").is_dir() else []:
+        try:
+            nb = _json.loads(p.read_text())
+        except Exception:
+            continue
+        for k, c in enumerate(nb.get("cells", [])):
+            if c.get("cell_type") == "code":
+                sources.append((f"{p.relative_to(repo)}#cell{k}", "".join(c.get("source", []))))
+    pat = _re.compile(r"""['"]?(test|estim|estimator|bet)['"]?\s*[:=]\s*NonnegMean\.(\w+)""")
+    for origin, src in sources:
+        for role, name in pat.findall(src):
+            role = "estim" if role == "estimator" else role
+            out[role].setdefault(name, []).append(origin)
+    return out
